@@ -72,8 +72,25 @@ type neverOwns struct{}
 func (neverOwns) OwnsKey([]byte) bool                                       { return true }
 func (neverOwns) ExclusivelyOwnsTable(string, []byte, []byte) (bool, error) { return false, nil }
 
+// coqBytes prints a long constant byte string as a repeat (terms are expensive to load)
+func coqBytes(b []byte) string {
+	if len(b) > 64 {
+		same := true
+		for _, x := range b {
+			if x != b[0] {
+				same = false
+				break
+			}
+		}
+		if same {
+			return fmt.Sprintf("(repeat %d (N.to_nat %d))", b[0], len(b))
+		}
+	}
+	return hx.CoqBytes(b)
+}
+
 func coqEntry(k, v []byte, seq uint64, del bool) string {
-	return fmt.Sprintf("(mkE %s %s %d %s)", hx.CoqBytes(k), hx.CoqBytes(v), seq, hx.CoqBool(del))
+	return fmt.Sprintf("(mkE %s %s %d %s)", hx.CoqBytes(k), coqBytes(v), seq, hx.CoqBool(del))
 }
 func coqEntries(es []string) string { return hx.CoqList(es, "entry") }
 func coqOptEntries(es []string, failed bool) string {
@@ -462,6 +479,10 @@ func execTab(c *hx.Case, ops []op) (*hx.Result, error) {
 			if i%5 == 0 {
 				e.v = []byte{byte(i), byte(i >> 8)}
 			}
+			if i == n/20 || i == n/3 || i == 2*n/3 { // pushes later entries beyond offset 65536
+				e.v = make([]byte, 9000)
+				e.del = false
+			}
 			es = append(es, e)
 		}
 	}
@@ -560,7 +581,7 @@ func execTab(c *hx.Case, ops []op) (*hx.Result, error) {
 			}
 			cnt := map[string]int{}
 			try := func(class string, k []byte) {
-				if cnt[class] < 4 && !present[string(k)] && bf.MightHave(k) {
+				if cnt[class] < 5 && !present[string(k)] && bf.MightHave(k) {
 					cnt[class]++
 					tgets = append(tgets, tget{ti, k})
 					tags = append(tags, "bloom-fp-"+class)
@@ -572,6 +593,7 @@ func execTab(c *hx.Case, ops []op) (*hx.Result, error) {
 				if len(tableKeys[ti]) > 0 {
 					base := tableKeys[ti][(i*7919)%len(tableKeys[ti])]
 					try("between", append(append([]byte{}, base...), byte('0'+i%10), byte('a'+i%26)))
+					try("prefix-of-key", base[:len(base)-1-i%2])
 				}
 			}
 			// some present keys of a big table too (block boundaries)
